@@ -93,4 +93,13 @@ def parse (t : ClassTables) (segs : List Seg) (path : List Char) : List (String 
   | some r => groupdict p r.caps
   | none => []
 
+/-- `<r>_path(**kv)`: `"<formatted>".format(**kv)` restricted to the names the builder declares -/
+def buildKw : List Seg → List (String × List Char) → Option (List Char)
+  | [], _ => some []
+  | .lit cs :: r, kv => (buildKw r kv).map (cs ++ ·)
+  | .var n _ :: r, kv =>
+    match kv.lookup (String.ofList n) with
+    | some v => (buildKw r kv).map (v ++ ·)
+    | none => none
+
 end GapicModel.Model.PathHelpers
